@@ -137,3 +137,61 @@ Definition check_vctx (c : vctx_case) : list string :=
 From Apko Require Export Spec.IndexBytesSpec.
 Definition check_sweep (bases : list (list N)) (signed : list (list piece * list string)) (c : sweep_case) : list string :=
   mutant_tags (map (fun s => (render bases (fst s), snd s)) signed) (render bases (sw_suffix c)) (sw_ending c) (sw_verdict c).
+
+(* ---- wiring stage (wave 3): ResolveWorld of every context of a multi-architecture build ---- *)
+From Apko Require Export Model.IndexWiring Model.IndexCacheFiles Spec.IndexHistSpec.
+Record wiring_case := {
+  wc_ctxs : list wctx;
+  wc_signer : list (list (option string));       (* context j, repository r *)
+  wc_versions : list (list (list N));            (* the versions of the package the index lists *)
+  wc_obs : list (option N) }.                    (* per context: None = ResolveWorld failed, Some v = the version chosen *)
+
+Definition check_wiring (c : wiring_case) : list string :=
+  let signer := fun j r => nth r (nth j (wc_signer c) []) None in
+  let versions := fun j r => nth r (nth j (wc_versions c) []) [] in
+  let ok := fun a => match nth a (wc_obs c) None with Some _ => true | None => false end in
+  wiring_tags (wc_ctxs c) signer ok ++
+  flat_map (fun a =>
+    match resolve_version (wc_ctxs c) signer versions a, nth a (wc_obs c) None with
+    | Some v, Some v' => tag_if (negb (N.eqb v v')) "mismatch:version-chosen"
+    | None, None => []
+    | Some _, None => ["mismatch:model-accepts-impl-rejects"]
+    | None, Some _ => ["mismatch:model-rejects-impl-accepts"]
+    end) (seq 0 (List.length (wc_ctxs c))).
+
+(* ---- files stage (wave 3): local index files rewritten between calls ------------------------ *)
+Record files_case := { fc_locs : list string; fc_arch : string; fc_events : list fevent }.
+
+Definition pairs_eqb (a b : list (nat * nat)) : bool :=
+  let mem p l := existsb (fun q => Nat.eqb (fst p) (fst q) && Nat.eqb (snd p) (snd q)) l in
+  forallb (fun p => mem p b) a && forallb (fun p => mem p a) b.
+
+Fixpoint answers_tags (evs : list fevent) (ans : list fanswer) : list string :=
+  match evs, ans with
+  | EvRewrite _ _ :: evs', AnsRewrite :: ans' => answers_tags evs' ans'
+  | EvCall c got :: evs', AnsCall err mgot :: ans' =>
+      (match err, o_err c with
+       | true, false => ["mismatch:model-rejects-impl-accepts"]
+       | false, true => ["mismatch:model-accepts-impl-rejects"]
+       | false, false => tag_if (negb (pairs_eqb mgot got)) "mismatch:index-versions-returned"
+       | true, true => []
+       end) ++ answers_tags evs' ans'
+  | [], [] => []
+  | _, _ => ["mismatch:event-count"]
+  end.
+
+Definition check_files (c : files_case) : list string :=
+  let loc := fun r => nth r (fc_locs c) "" in
+  let w0 : fworld := fun _ => [] in
+  files_tags loc (fc_arch c) w0 (fc_events c) ++
+  answers_tags (fc_events c) (frun loc (fc_arch c) vctx vctx_eqb (ctx_fixed loc (fc_arch c)) w0 [] (fc_events c)).
+
+(* ---- interleave stage (wave 3): concurrent loads; what a call returns for a repository is what
+   THAT repository serves ---------------------------------------------------------------------- *)
+Record interleave_case := {
+  il_returned : list (nat * list nat) }.    (* (repository asked for, the repositories whose marker packages the returned index carries) *)
+
+Definition check_interleave (c : interleave_case) : list string :=
+  flat_map (fun p => tag_if (negb (forallb (Nat.eqb (fst p)) (snd p))) "viol:index-content-from-another-repository" ++
+                     tag_if (match snd p with [] => true | _ => false end) "viol:index-without-its-repository-content")
+           (il_returned c).
